@@ -120,15 +120,21 @@ CLAIMED = {
             "alphabet with '.', '/', '%', '2', 'E', 'F', 'e', '~', NUL: result is rejected or is '.'/'./...' without '..' "
             "segments under the root; JailBreak exactly outside the jail. The enforcement inside dromedary transports is outside.",
             "urlutils.joinpath/escape/unescape (Rust) replaced by python models validated against the compiled functions"),
-    "C33": ("search recipe serialisation",
-            "Decides that the recipe bytes produced by RemoteRepository._serialise_search_recipe are parsed back by "
-            "SmartServerRepositoryRequest.recreate_search_from_recipe's parsing half into the same start keys, exclude keys "
-            "and count (symbolic revision ids and count). Recipe construction / replay over a revision graph is outside.",
-            "revision ids contain no space / newline; the graph walk is stubbed"),
+    "C33": ("search recipe construction and serialisation",
+            "(1) search_result_from_parent_map over parent maps whose keys, parents and missing keys are SYMBOLIC ids - "
+            "the solver decides which coincide, so every graph shape over them is covered: the (start, stop, count) recipe "
+            "makes a reference server walk include exactly the map's keys (plus the null revision when reached and not "
+            "stopped) and count equals the number of included keys. (2) The recipe bytes produced by "
+            "RemoteRepository._serialise_search_recipe / SearchResult.get_network_struct are parsed back by the server "
+            "into the same start keys, exclude keys and count. The compiled breadth-first searcher and "
+            "limited_search_result_from_parent_map are outside.",
+            "revision ids contain no space / newline; the server walk is a reference model in the harness"),
     "C34": ("git commit field round trip",
             "import_commit then export_commit on symbolic times, time zones, flags, message (present/None) and the bzr "
-            "metadata block (inject/extract). Byte-for-byte identity of the serialised commit (dulwich) is outside.",
-            "input commit is an attribute record; message bytes ASCII; no signatures / merge tags / extra headers"),
+            "metadata block (inject/extract), plus gpg signature and merge tags as ARBITRARY bytes through commits with "
+            "no / utf-8 / iso8859-1 encoding header. Byte-for-byte identity of the serialised commit (dulwich) is outside.",
+            "input commit is an attribute record; symbolic messages are ASCII; merge tags are carried by a stand-in for "
+            "dulwich's Tag; no extra headers"),
     "C36": ("git identifier mappings (Python side)",
             "escape/unescape_file_id on arbitrary bytes, generate/parse_file_id, sha <-> revision id, branch/tag name <-> ref "
             "with symbolic names. URL conversions (Rust + dulwich) and GitBranch.set_parent are outside.",
@@ -178,10 +184,14 @@ CLAIMED = {
             "Full property for breezy.cmdline.split: quote-then-split round trip for <= 2 arguments of <= 3/4 symbolic chars, "
             "conservation of characters for arbitrary command lines, both single-quote settings.",
             "reference quoter as stated in the evidence"),
-    "C51": ("rebase plan persistence",
-            "marshall_rebase_plan / unmarshall_rebase_plan round trip with symbolic revno, revision ids and parents "
-            "(<= 2/3 entries). Plan generation over a real graph is outside.",
-            "revision ids contain no space / newline"),
+    "C51": ("rebase plan generation (simple plans) and persistence",
+            "(1) generate_simple_plan over histories whose SHAPE is symbolic (revisions and parents are symbolic ids; "
+            "chains, diamonds inside the rebased set, merges from outside): exactly the revisions of the set are "
+            "rewritten, every new parent is the new base, the new id of a rewritten revision or a revision outside the "
+            "set - never the old id of a rewritten revision. (2) marshall_rebase_plan / unmarshall_rebase_plan round trip "
+            "with symbolic revno, revision ids and parents. generate_transpose_plan, rebase_todo and vcsgraph's own "
+            "topological sort / heads are outside.",
+            "graph answers computed from the symbolic parent table; topo_sort replaced by the table's id order"),
 }
 
 NOT_APPLICABLE = {
